@@ -1314,8 +1314,10 @@ class C07(Property):
         post_processor(pre_processor(state)) gives the state back (Log: shifted by `small`)"""
         import numpy as np
         es = build(c['sys'])
-        if has_other_phase(es) or es.nr == 0 or c['dir'] != 'pre':
+        if has_other_phase(es) or es.nr == 0:
             return None
+        if c['dir'] == 'post':
+            return self._oracle_post(c, es)
         form = c['form']
         NS = numsys(form)
         nsys = NS(es)
@@ -1350,6 +1352,49 @@ class C07(Property):
                 return '%s.f(pre_processor(state)): residual %d is %r at a state satisfying its equation' % (NS.__name__, idx, v)
             if not w and not abs(v) >= 1e-7 * scale[idx]:
                 return '%s.f(pre_processor(state)): residual %d is %r at a state violating its equation' % (NS.__name__, idx, v)
+        return None
+
+    def _oracle_post(self, c, es):
+        """at ARBITRARY solver variables x (any sign): the residual f(x) is the residual of the concentrations post_processor(x) —
+        entry i equals Q_i(post(x))/K_i - 1 (Log: ln Q_i - ln K_i), entry nr+k equals B_k·post(x) - B_k·c0 — so that a root of f
+        is reported by post_processor as the equilibrium state it stands for"""
+        import numpy as np
+        form = c['form']
+        NS = numsys(form)
+        nsys = NS(es)
+        ns, nr = es.ns, es.nr
+        N = net_matrix(c['sys'])
+        keys, B = comp_matrix(es)
+        p = [float(unrj(v)) for v in c['params']]
+        c0, K = p[:ns], p[ns:]
+        x = [float(v) for v in c['x']]
+        if form == 'linrel' and self._linrel_y(es, [F(1)] * ns, [unrj(v) for v in c['params']]) is None:
+            return None
+        if any(k <= 0 for k in K):
+            return None
+        with np.errstate(all='ignore'):
+            conc, _ = nsys.post_processor(np.array(x), np.array(p))
+        conc = [float(v) for v in conc]
+        if any(v == 0 for v in conc):
+            return None
+        try:
+            r = [float(v) for v in nsys.f(list(x), list(p))]
+        except Exception as e:
+            return '%s.f raised %s at solver variables %r' % (NS.__name__, exc_name(e), x)
+        want = []
+        for i in range(nr):
+            q = 1.0
+            for v, n in zip(conc, N[i]):
+                q *= v ** n
+            want.append((math.log(q) - math.log(K[i])) if form == 'log' else q / K[i] - 1)
+        for row in B:
+            want.append(sum(b * v for b, v in zip(row, conc)) - sum(b * v for b, v in zip(row, c0)))
+        if len(r) != len(want):
+            return '%s.f has %d equations, expected %d' % (NS.__name__, len(r), len(want))
+        for idx, (a, b) in enumerate(zip(r, want)):
+            sc = 1.0 + abs(b) + (sum(abs(v) for v in conc) * 10 if idx >= nr else (sum(abs(math.log(abs(v))) for v in conc) * 4 if form == 'log' else 0.0))
+            if not abs(a - b) <= 1e-9 * sc * (1 + abs(b)):
+                return '%s: residual %d at x is %r, but the concentrations post_processor(x) give %r' % (NS.__name__, idx, a, b)
         return None
 
     def _oracle_root_forwarding(self, c):
